@@ -53,9 +53,9 @@ pub fn expand(
         // Not using `#[inline]` here on purpose, since this is almost never part
         // of a hot codepath.
         quote! {
-            fn provide<'_request>(
-                &'_request self,
-                request: &mut derive_more::core::error::Request<'_request>,
+            fn provide<'__derive_more_request>(
+                &'__derive_more_request self,
+                request: &mut derive_more::core::error::Request<'__derive_more_request>,
             ) {
                 #provide
             }
